@@ -2217,9 +2217,17 @@ class ExpressionEvaluator(Parser):
         elif op == "*":
             return lhs * rhs
         elif op == "/":
-            return lhs // rhs  # force integer division
+            # C division truncates toward zero; // rounds down.
+            quotient = lhs // rhs
+            if lhs % rhs != 0 and (lhs < 0) != (rhs < 0):
+                quotient = quotient + type(lhs)(1)
+            return quotient
         elif op == "%":
-            return lhs % rhs
+            # The C remainder has the sign of the dividend.
+            remainder = lhs % rhs
+            if remainder != 0 and (lhs < 0) != (rhs < 0):
+                remainder = remainder - rhs
+            return remainder
         else:
             raise ValueError("Not a binary operator.")
 
